@@ -339,4 +339,16 @@ def run(ctx):
                                               {"scale": a, "prefix": pfx, "mag": repr(mag), "listed_as": name})
                     if len(seen) < 3:
                         ctx.count("command_line_listed_fewer_than_three_other_scales")
+    # the same questions asked by two threads at once (deterministic line scheduler, units of the scenario's own with exact
+    # ratios, the temperature scales, levels): what this property says about an answer holds for every thread's answer
+    if ctx.shard == 0:
+        from .. import concurrent_conv
+        _mon = locals().get("mon")
+        if _mon is not None:
+            _mon.paused = True
+        try:
+            concurrent_conv.section(ctx, env, trials=(36 if ctx.tier == "quick" else 600), key="C10")
+        finally:
+            if _mon is not None:
+                _mon.paused = False
     ctx.require("evaluations", 1000)
